@@ -24,6 +24,8 @@ func init() {
 			c.guard("tablefill", func() { ruleTableFill(c, "tablefill", "newAlphabet", "NewPairing"); c.floor("tablefill", 2) })
 			c.guard("bijection", func() { ruleBijection(c, "bijection"); c.floor("bijection", 2) })
 			c.guard("casefold", func() { ruleCaseFold(c, "casefold"); c.floor("casefold", 2) })
+			c.guard("compmethod", func() { ruleCompMethod(c, "compmethod"); c.floor("compmethod", 1) })
+			c.guard("indexinit", func() { ruleIndexInit(c, "indexinit"); c.floor("indexinit", 1) })
 		},
 	})
 	register(&propDef{
@@ -34,6 +36,12 @@ func init() {
 		Run: func(c *Ctx) {
 			c.guard("signround", func() { ruleSignRound(c, "signround"); c.floor("signround", 2) })
 			c.guard("scorespace", func() { ruleScoreSpace(c, "scorespace", "Ephred", "Esolexa"); c.floor("scorespace", 2) })
+			c.guard("tableshift", func() {
+				ruleTableShift(c, "tableshift", "phredETable", "solexaETable", "phredSolexaTable", "solexaPhredTable")
+				c.floor("tableshift", 4)
+			})
+			c.guard("convformula", func() { ruleConvFormula(c, "convformula"); c.floor("convformula", 2) })
+			c.guard("scalepath", func() { ruleScalePath(c, "scalepath"); c.floor("scalepath", 4) })
 			c.guard("tables/quality", func() { ruleQuality(c) })
 		},
 	})
@@ -47,6 +55,8 @@ func init() {
 			c.guard("taintsize", func() { ruleTaintSize(c, "taintsize", "io/featio/bed", "io/featio/gff"); c.floor("taintsize", 1) })
 			c.guard("lencheck", func() { ruleLenCheck(c, "lencheck"); c.floor("lencheck", 1) })
 			c.guard("sentinel", func() { ruleSentinel(c, "sentinel", "io/featio/bed", "io/featio/gff"); c.floor("sentinel", 2) })
+			c.guard("recovercover", func() { ruleRecoverCover(c, "recovercover", "io/featio/bed", "io/featio/gff"); c.floor("recovercover", 2) })
+			c.guard("arrayrange", func() { ruleArrayRange(c, "arrayrange", "alphabet"); c.floor("arrayrange", 4) })
 			c.guard("lineio/eofhang", func() {
 				ruleEOFPaths(c, "lineio/eofhang", "", "io/featio/bed", "io/featio/gff")
 				c.floor("lineio/eofhang", 3)
@@ -73,6 +83,7 @@ func init() {
 			c.guard("lineio/eofdata", func() { ruleDataOnEOF(c, "lineio/eofdata", seqs...) })
 			c.guard("lineio/rawline", func() { ruleRawLine(c, "lineio/rawline", seqs...); c.floor("lineio/rawline", 2) })
 			c.guard("lineio/pendingeof", func() { rulePendingEOF(c, "lineio/pendingeof", seqs...); c.floor("lineio/pendingeof", 2) })
+			c.guard("linelimit", func() { ruleLineLimit(c, "linelimit", "io/featio/bed", "io/featio/gff", "io/seqio/fasta", "io/seqio/fastq") })
 			c.guard("bufalias", func() {
 				ruleBufAlias(c, "bufalias", append(append([]string{}, feat...), seqs...)...)
 				c.floor("bufalias", 4)
@@ -116,6 +127,8 @@ func init() {
 			})
 			c.guard("zerocolour", func() { ruleZeroColour(c, "zerocolour"); c.floor("zerocolour", 1) })
 			c.guard("splitsep", func() { ruleSplitSep(c, "splitsep"); c.floor("splitsep", 6) })
+			c.guard("spancheck", func() { ruleSpanCheck(c, "spancheck") })
+			c.guard("linelimit", func() { ruleLineLimit(c, "linelimit", "io/featio/bed", "io/featio/gff") })
 			c.guard("bytecount", func() { ruleByteCount(c, "bytecount", "io/featio/bed", "io/featio/gff"); c.floor("bytecount", 28) })
 		},
 	})
@@ -164,6 +177,7 @@ func init() {
 				c.floor("fresh/freshdst", 7)
 			})
 			c.guard("slicebounds", func() { ruleSliceBounds(c, "slicebounds"); c.floor("slicebounds", 4) })
+			c.guard("parallelidx", func() { ruleParallelIdx(c, "parallelidx"); c.floor("parallelidx", 1) })
 			c.guard("mustpass", func() { ruleScratchReverse(c, "mustpass"); c.floor("mustpass", 1) })
 			c.guard("qtravel", func() {
 				ruleQTravel(c, "qtravel", [][2]string{{"seq/linear", "(*QSeq).RevComp"}, {"seq/linear", "(*QSeq).Reverse"}, {"seq/alignment", "(*QSeq).RevComp"}, {"seq/alignment", "(*QSeq).Reverse"}})
@@ -191,6 +205,11 @@ func init() {
 			c.guard("stalebuf", func() {
 				ruleStaleBuf(c, "stalebuf", [][2]string{{"seq/alignment", "(*Seq).AppendEach"}, {"seq/alignment", "(*QSeq).AppendEach"}})
 				c.floor("stalebuf", 2)
+			})
+			c.guard("flagcases", func() { ruleFlagCases(c, "flagcases"); c.floor("flagcases", 1) })
+			c.guard("fillwatermark", func() {
+				ruleFillWatermark(c, "fillwatermark", [][2]string{{"alphabet", "Letter.Repeat"}, {"alphabet", "QLetter.Repeat"}})
+				c.floor("fillwatermark", 2)
 			})
 			c.guard("fresh/periter", func() {
 				for _, t := range [][2]string{
@@ -251,6 +270,16 @@ func init() {
 				ruleBorderCover(c, "bordercover", fns, borderRow, borderCol)
 				c.floor("bordercover", 14)
 			})
+			c.guard("emitnotscore", func() {
+				var fns []*ssa.Function
+				for _, a := range aligners {
+					fns = append(fns, c.fn("align", a+".alignLetters"), c.fn("align", a+".alignQLetters"))
+				}
+				ruleEmitNotScore(c, "emitnotscore", fns)
+				ruleTableZero(c, "tablezero", fns)
+				c.floor("emitnotscore", 12)
+				c.floor("tablezero", 12)
+			})
 		},
 	})
 	register(&propDef{
@@ -270,6 +299,8 @@ func init() {
 			c.guard("stride", func() { ruleStride(c, "stride", fnsOf()); c.floor("stride", 100) })
 			c.guard("sibling", func() { ruleSibling(c, "sibling", aligners); c.floor("sibling", 6) })
 			c.guard("bordercover", func() { ruleBorderCover(c, "bordercover", fnsOf(), borderRow, borderCol); c.floor("bordercover", 14) })
+			c.guard("tablezero", func() { ruleTableZero(c, "tablezero", fnsOf()); c.floor("tablezero", 12) })
+			c.guard("argmaxlayer", func() { ruleArgmaxLayer(c, "argmaxlayer", fnsOf()); c.floor("argmaxlayer", 2) })
 		},
 	})
 	register(&propDef{
@@ -293,6 +324,9 @@ func init() {
 			})
 			c.guard("demandedbits", func() { ruleDemandedBits(c, "demandedbits"); c.floor("demandedbits", 3) })
 			c.guard("minrange", func() { ruleMinRange(c, "minrange") })
+			c.guard("windowpos", func() { ruleWindowPos(c, "windowpos"); c.floor("windowpos", 1) })
+			c.guard("noexpose", func() { ruleNoExpose(c, "noexpose"); c.floor("noexpose", 1) })
+			c.guard("preloadbound", func() { rulePreloadBound(c, "preloadbound"); c.floor("preloadbound", 1) })
 		},
 	})
 	register(&propDef{
@@ -305,6 +339,7 @@ func init() {
 			c.guard("pooldrain", func() { rulePoolDrain(c, "pooldrain"); c.floor("pooldrain", 1) })
 			c.guard("poolnil", func() { rulePoolNil(c, "poolnil"); c.floor("poolnil", 2) })
 			c.guard("poolmove", func() { rulePoolMove(c, "poolmove"); c.floor("poolmove", 3) })
+			c.guard("errslot", func() { ruleErrSlot(c, "errslot"); c.floor("errslot/sticky", 3); c.floor("errslot/propagate", 6+2) })
 			// whether a cycle is in-memory or spilled must not be decided from state the
 			// background writers are still producing: Finalise joins before reading it
 			c.guard("gojoin", func() { ruleMorassJoin(c, "gojoin"); c.floor("gojoin", 1) })
@@ -320,6 +355,7 @@ func init() {
 			c.guard("lockset", func() { ruleMorassLockset(c, "lockset"); c.floor("lockset", 4) })
 			c.guard("errslot", func() { ruleErrSlot(c, "errslot"); c.floor("errslot/sticky", 3) })
 			c.guard("poolreturn", func() { rulePoolReturn(c, "poolreturn"); c.floor("poolreturn", 1) })
+			c.guard("pooldrain", func() { rulePoolDrain(c, "pooldrain"); c.floor("pooldrain", 1) })
 		},
 	})
 	register(&propDef{
@@ -332,6 +368,7 @@ func init() {
 			c.guard("residue", func() { ruleResidue(c, "residue"); c.floor("residue", 5) })
 			c.guard("filepairing", func() { ruleTempFilePairing(c, "filepairing"); c.floor("filepairing", 1) })
 			c.guard("runretire", func() { ruleRunRetire(c, "runretire"); c.floor("runretire", 1) })
+			c.guard("gojoin", func() { ruleMorassJoin(c, "gojoin"); c.floor("gojoin", 1) })
 		},
 	})
 	register(&propDef{
@@ -350,6 +387,7 @@ func init() {
 				c.floor("mailbox", 4)
 			})
 			c.guard("closerspawn", func() { ruleCloserSpawn(c, "closerspawn"); c.floor("closerspawn", 1) })
+			c.guard("addbeforego", func() { ruleAddBeforeGo(c, "addbeforego"); c.floor("addbeforego", 1) })
 		},
 	})
 	register(&propDef{
@@ -368,6 +406,8 @@ func init() {
 				c.floor("fresh/sortedfresh", 2)
 			})
 			c.guard("exonoverlap", func() { ruleExonOverlap(c, "exonoverlap"); c.floor("exonoverlap", 1) })
+			c.guard("zerostart", func() { ruleZeroStart(c, "zerostart"); c.floor("zerostart", 1) })
+			c.guard("querypure", func() { ruleQueryPure(c, "querypure"); c.floor("querypure", 6) })
 			c.guard("commitlast", func() {
 				ruleCommitLast(c, "commitlast", "feat/gene", "(*NonCodingTranscript).SetExons")
 				ruleCommitLast(c, "commitlast", "feat/gene", "(*CodingTranscript).SetExons")
@@ -389,6 +429,8 @@ func init() {
 			c.guard("gridperiod", func() { ruleGridPeriod(c, "gridperiod"); c.floor("gridperiod", 1) })
 			c.guard("tubeend", func() { ruleTubeEnd(c, "tubeend"); c.floor("tubeend", 1) })
 			c.guard("kmerdist", func() { ruleKmerDist(c, "kmerdist"); c.floor("kmerdist", 1) })
+			c.guard("flushrange", func() { ruleFlushRange(c, "flushrange"); c.floor("flushrange", 2) })
+			c.guard("tubecap", func() { ruleTubeCap(c, "tubecap"); c.floor("tubecap", 1) })
 			c.guard("runstate", func() { ruleRunState(c, "runstate"); c.floor("runstate", 1) })
 		},
 	})
@@ -401,6 +443,8 @@ func init() {
 			c.guard("emitguard", func() { ruleDPEmit(c, "emitguard"); c.floor("emitguard", 6) })
 			c.guard("dupclass", func() { ruleDupClass(c, "dupclass"); c.floor("dupclass", 4) })
 			c.guard("ownedfilter", func() { ruleOwnedFilter(c, "ownedfilter"); c.floor("ownedfilter", 2) })
+			c.guard("selfguard", func() { ruleSelfGuard(c, "selfguard"); c.floor("selfguard", 1) })
+			c.guard("paramwire", func() { ruleParamWire(c, "paramwire"); c.floor("paramwire", 6) })
 			c.guard("runstate", func() { ruleRunState(c, "runstate"); c.floor("runstate", 1) })
 		},
 	})
